@@ -1297,3 +1297,45 @@ func isCountOfCopy(v ssa.Value) bool {
 	}
 	return false
 }
+
+// ---------------------------------------------------------------------------
+// C18.9: every description registered for an operation is considered. The lookup loop of (*Set).match leaves early
+// only by returning the description that matched; it never `break`s (or returns nothing) after a description that
+// did not match — a later description whose parameters do match would never fire and stay listed forever.
+func ruleC18_9(c *Ctx, r *Rep) {
+	fn := r.Anchor("C18.9", "(*faults.Set).match")
+	if fn == nil {
+		return
+	}
+	n := 0
+	for _, l := range loopsOf(fn) {
+		n++
+		var after *ssa.BasicBlock
+		for _, e := range l.exitEdges() {
+			if e[0] == l.Header {
+				after = e[1]
+			}
+		}
+		ok, why := true, ""
+		for _, e := range l.exitEdges() {
+			if e[0] == l.Header {
+				continue
+			}
+			// an exit from inside the body: must be the matched branch returning the description
+			matched := condHas(edgeConds(e[1]), true, func(v ssa.Value) bool {
+				cl, isC := v.(*ssa.Call)
+				return isC && cl.Call.StaticCallee() != nil && cl.Call.StaticCallee().Name() == "match"
+			})
+			_, isRet := e[1].Instrs[len(e[1].Instrs)-1].(*ssa.Return)
+			if e[1] == after || !matched || !isRet {
+				ok = false
+				why = "the loop is left from " + c.Pos(e[0].Instrs[len(e[0].Instrs)-1].Pos()) + " without a description having matched"
+			}
+		}
+		r.Check("C18.9", "C18.9:lookup-considers-every-description#"+loopOrdinal(fn, l), l.Header.Instrs[len(l.Header.Instrs)-1].Pos(), ok, "", why+": only the first description of an operation is ever considered — a later one whose parameters match never fires and stays listed")
+	}
+	if n == 0 {
+		r.Fail("C18.9", "C18.9:lookup-considers-every-description", fn.Pos(), "(*Set).match has no loop that goes on to a second description (its body leaves on the first iteration whether or not the description matched): only the first description of an operation is ever considered — a later one whose parameters match never fires and stays listed")
+	}
+	r.Floor("C18.9", n, 1)
+}
